@@ -18,6 +18,8 @@ EXTENDS Sampler, Json, SequencesExt
 
 CONSTANTS XVals, MaxNodes, PVals, UDen,     \* smp: abscissae, node count 2..MaxNodes, densities, u = j/UDen
           XShift,                           \* smp mechanism: 0 = code (xvals = x[1:]), 1 = off-by-one variant
+          Dedup,                            \* smp mechanism: "none" (code) | "unique_first" | "lead_last" (Sampler.tla)
+          SmpKinds,                         \* {"density", "cumulative"}
           LDiag, LOffP, LOffShift, CholMaxN, CholNs, ZSels,   \* chol: diagonal, off-diagonal (+shift), npar, n
           Transposed,                       \* chol mechanism: FALSE = code (M r), TRUE = M^T r variant
           IdxMax,                           \* idx: imax 0..IdxMax, n 0..IdxMax+1
@@ -37,35 +39,55 @@ Init == fam = "start" /\ ph = "start" /\ c = None /\ m = None
 EDec(code, shift) == <<(code \div 16) - shift, (code % 16) - 8>>
 
 \* =================================================================================== smp
-SmpUs(x, p) == SetToSortSeq({RNorm(j, UDen) : j \in 0..UDen} \cup {SmpCum(x, p, k) : k \in 2..Len(x)},
-                            LAMBDA a, b : RLt(a, b))
+\* deviates tried: j/UDen, every tabulated value, and a point strictly above every flat stretch
+\* (half way to the next larger tabulated value)
+SmpUs(t) == SetToSortSeq({RNorm(j, UDen) : j \in 0..UDen} \cup {t.cs[k] : k \in 1..SmpTN(t)}
+                         \cup {RDiv(RAdd(t.cs[k], t.cs[k + 1]), RInt(2)) :
+                                 k \in {j \in 2..(SmpTN(t) - 1) : t.cs[j - 1] = t.cs[j] /\ RLt(t.cs[j], t.cs[j + 1])}},
+                         LAMBDA a, b : RLt(a, b))
+RECURSIVE SmpRunSum(_, _)
+SmpRunSum(p, k) == IF k = 0 THEN 0 ELSE SmpRunSum(p, k - 1) + p[k]
 SmpChooseGrid ==
     /\ fam = "start" /\ "smp" \in Families
     /\ \E S \in SUBSET XVals : Cardinality(S) >= 2 /\ Cardinality(S) <= MaxNodes
           /\ c' = [x |-> VSortSet(S)]
     /\ fam' = "smp" /\ ph' = "grid" /\ UNCHANGED m
+\* densities over PVals (0 included: flat stretches); for kind "cumulative" the chosen vector is
+\* the sequence of increments of the accumulated distribution
 SmpChooseDens ==
     /\ fam = "smp" /\ ph = "grid"
-    /\ \E p \in [1..Len(c.x) -> PVals] :
-          c' = [x |-> c.x, p |-> p, us |-> SmpUs(c.x, p), cum |-> SmpCumSeq(c.x, p)]
+    /\ \E kind \in SmpKinds : \E p \in [1..Len(c.x) -> PVals] :
+          LET pp == IF kind = "density" THEN p ELSE [k \in DOMAIN p |-> SmpRunSum(p, k)]
+              cc == [kind |-> kind, x |-> c.x, p |-> pp]
+          IN IF SmpValid(cc)       \* (a condition, not a conjunct: TLC must not branch on its inner quantifier)
+             THEN c' = [kind |-> kind, x |-> c.x, p |-> pp, us |-> SmpUs(SmpTable(cc, 0)), cum |-> SmpTable(cc, 0).cs]
+             ELSE FALSE
     /\ ph' = "case" /\ UNCHANGED <<fam, m>>
+SmpMechTable == SmpDedup(SmpTable(c, XShift), Dedup)
 SmpMechSearch ==
-    /\ fam = "smp" /\ ph = "case" /\ Len(c.x) >= 3
-    /\ \E q \in DOMAIN c.us : m' = [u |-> c.us[q], xm |-> SmpSearch(c.x, c.p, c.us[q]) - 1]
+    /\ fam = "smp" /\ ph = "case"
+    /\ \E q \in DOMAIN c.us : m' = [u |-> c.us[q], xm |-> SmpSearch(SmpMechTable, c.us[q]) - 1]
     /\ ph' = "searched" /\ UNCHANGED <<fam, c>>
 SmpMechEvalStep ==
     /\ fam = "smp" /\ ph = "searched"
-    /\ m' = [u |-> m.u, v |-> SmpMechEval(c.x, c.p, m.u, SmpClamp(c.x, m.xm), XShift)]
+    /\ m' = [u |-> m.u, r |-> SmpMechEval(SmpMechTable, m.u, SmpClamp(SmpMechTable, m.xm))]
     /\ ph' = "done" /\ UNCHANGED <<fam, c>>
 
 SmpTheorems == (fam = "smp" /\ ph = "case") =>
-    /\ SmpValid(c.x, c.p) /\ SmpThmCumIncreasing(c.x, c.p) /\ SmpThmGridPoint(c.x, c.p)
-    /\ \A q \in DOMAIN c.us : SmpThmWellDefined(c.x, c.p, c.us[q]) /\ SmpThmInGrid(c.x, c.p, c.us[q])
-    /\ \A q \in 1..(Len(c.us) - 1) : SmpThmMonotone(c.x, c.p, c.us[q], c.us[q + 1])
+    LET t == SmpTable(c, 0) IN
+    /\ SmpValid(c) /\ SmpThmTable(t) /\ SmpThmGridPoint(t)
+    /\ \A q \in DOMAIN c.us : SmpThmWellDefined(t, c.us[q]) /\ SmpThmInGrid(t, c.us[q]) /\ SmpThmBracket(t, c.us[q])
+    /\ \A q \in 1..(Len(c.us) - 1) : SmpThmMonotone(t, c.us[q], c.us[q + 1])
     /\ c.us[1] = RInt(0) /\ c.us[Len(c.us)] = RInt(1)
+\* the mechanism returns an allowed value wherever the statement constrains it; the code as it
+\* stands (Dedup = "none") is known to produce 0/0 at u = first tabulated value shared by the
+\* first two nodes - nowhere else
 SmpMechRefines == (fam = "smp" /\ ph = "done") =>
-    /\ SmpConstrained(c.x, c.p, m.u) => m.v \in SmpVals(c.x, c.p, m.u)
-    /\ RLt(m.u, SmpFirstCum(c.x, c.p)) => RLe(m.v, RInt(c.x[2]))
+    LET t == SmpTable(c, 0) IN
+    /\ SmpConstrained(t, m.u) =>
+          \/ (IsOk(m.r) /\ m.r.val \in SmpVals(t, m.u))
+          \/ (Dedup = "none" /\ m.r.err = "nan" /\ SmpLeadingTie(t, m.u))
+    /\ (~SmpDegenerate(t) /\ RLt(m.u, t.cs[1]) /\ IsOk(m.r)) => RLe(m.r.val, RInt(t.xs[SmpLeadRight(t)]))
 
 \* =================================================================================== chol
 CholMeanPat == <<3, -2, 0, 5, -1>>
